@@ -210,6 +210,23 @@ func TestC02(t *testing.T) {
 		}
 		return sig, msg
 	}, func(s string) { t.Fatalf("%s", s) })
+	// enumerated: revocation lists over the calendar x the CRL lint's option
+	forEachCalendarCRL(func(c engine.Case) {
+		rec.Class("calendar_crl")
+		if sig, msg := judge(c); msg != "" {
+			if rec.Report("c02", sig, msg, c) {
+				t.Fatalf("c02 %v: %s: %s", c.Ops, sig, msg)
+			}
+		}
+	})
+	// under well-typed configurations: the branches a non-default option opens must not fail internally either
+	rapidRun(t, "configured", perShard(stats.Scale(12000, 400000)), func(rt *rapid.T) {
+		c, _ := drawConfiguredCase(rt)
+		rec.Class("configured")
+		if sig, msg := judge(c); msg != "" {
+			fail(rt, rec, "c02", sig, msg, c)
+		}
+	})
 	rapidRun(t, "generated", perShard(stats.Scale(60000, 2000000)), func(rt *rapid.T) {
 		c := drawObject(rt, 4, true)
 		if sig, msg := judge(c); msg != "" {
